@@ -1,5 +1,5 @@
 #!/bin/bash
-# fuzz_campaign.sh <C01|C07|C12> — coverage-guided libFuzzer campaigns (thorough tier only).
+# fuzz_campaign.sh <C01|C02|C05|C07|C08|C11|C12|C13|C14> — coverage-guided libFuzzer campaigns (thorough tier only).
 # Two builds per target (debug assertions + overflow checks on, and -O without them), bounded by
 # -runs, seeded from VERIF_SEED, fresh corpus seeded from fuzz/seeds. The oracle is inside the
 # target; a violation is written as a JSON replay file and printed as a VIOLATION line.
@@ -12,9 +12,15 @@ export VERIF_ROOT="$ROOT"
 ID="${1:-}"
 case "$ID" in
     C01) TARGETS="c01_raw c01_tokens" ;;
+    C02) TARGETS="c02_tree" ;;
+    C05) TARGETS="c05_sequences" ;;
     C07) TARGETS="c07_separators" ;;
+    C08) TARGETS="c08_eval" ;;
+    C11) TARGETS="c11_readonly" ;;
     C12) TARGETS="c12_entrypoints" ;;
-    *) echo "usage: fuzz_campaign.sh C01|C07|C12"; exit 2 ;;
+    C13) TARGETS="c13_reject" ;;
+    C14) TARGETS="c14_idents" ;;
+    *) echo "usage: fuzz_campaign.sh C01|C02|C05|C07|C08|C11|C12|C13|C14"; exit 2 ;;
 esac
 RUNS="${VERIF_FUZZ_RUNS:-1500000}"
 SEED="${VERIF_SEED:-0}"; [ "$SEED" = 0 ] && SEED=20261002
